@@ -186,6 +186,13 @@ def client_main(manager, conn, name):
                             rep = ('err', 'kid does not exit', '')
                         else:
                             _reap(pr)
+            elif op == 'dropall':
+                # every proxy this process holds goes away - the factory's too - and the process makes NO further call: the
+                # thread has no proxy left, so its connection to the server must be closed (and with it goes whatever the
+                # serving thread still holds of the last reply)
+                tab.clear()
+                kinds.clear()
+                fac = None
             elif op == 'check':
                 fac.ping()   # flushes the previous request / reply still referenced by the serving thread
                 rep = ('ok', {h: _call_check(p, kinds[h]) for h, p in tab.items()})
@@ -318,6 +325,11 @@ class Driver:
         self.obj_of = {}    # handle / transit id -> spec object
         self.slots = {}     # container -> ordered list of handle ids (list order; dict keys are str(id))
         self.up = set(procs)
+        self.dropped = set()    # processes that have dropped everything and stay idle: never called again (not even pinged)
+
+    def dropall(self, p):
+        self.ok(self.w.cmd(p, 'dropall'), 'dropall')
+        self.dropped.add(p)
 
     def kind(self, o):
         return kind_of(o, self.variant)
@@ -381,11 +393,14 @@ class Driver:
         """flush every connection, then read the server.  containers_via: {container: (process, handle)} readable ones"""
         held = {}
         for p in sorted(self.up):
+            if p in self.dropped:
+                held[p] = []
+                continue
             held[p] = sorted(self.ok(self.w.cmd(p, 'check'), f'a live proxy held by {p} does not answer'))
         info = self.w.debug_info()
         cont = {}
         for c, (p, h) in containers_via.items():
-            if p in self.up:
+            if p in self.up and p not in self.dropped:
                 r = self.ok(self.w.cmd(p, 'contents', h), 'contents')
                 cont[c] = sorted(int(k) for k in r) if isinstance(r, list) else r
         shm = {o: os.path.exists('/dev/shm/' + n.lstrip('/')) for o, n in self.shmname.items()}
@@ -943,6 +958,25 @@ def random_history(item):
                 evs.append({k: v for k, v in ev.items() if not k.startswith('_')})
             steps += len(batch)
             evs.append(observation(drv, gen))
+        if sc.get('idle_drop'):
+            # Every client process makes one last call whose reply carries a proxy, drops ALL its proxies and then stays alive
+            # and idle - no further call, not even the harness' ping.  What only that last reply (in the hands of the thread
+            # serving the connection) still refers to must go away all the same.  The observation that follows must be of a
+            # quiet model state.
+            for p in sorted(gen.up):
+                if p in gen.kid_parent or any(to == p for o, to in gen.msgs.values()):
+                    continue
+                objs_held = sorted(set(gen.held[p].values()))
+                if objs_held and gen.next <= sc['maxid'] - 4:
+                    a = {'p': p, 'o': rnd.choice(objs_held), 'via': 'again'}
+                    ev = gen.apply('Create', a)
+                    who = issue(drv, gen, 'Create', a, ev)
+                    absorb(drv, gen, 'Create', a, ev, drv.w._recv(who))
+                    evs.append({k: v for k, v in ev.items() if not k.startswith('_')})
+                for x in sorted(gen.held[p]):
+                    evs.append(gen.apply('Delete', {'p': p, 'x': x}))
+                drv.dropall(p)
+            evs.append(observation(drv, gen, final=True))
         # teardown: rebuild nothing more; every process exits holding what it has
         for k in [k for k in sorted(gen.up) if k in gen.kid_parent]:
             drv.exit(k, variant['exit'])
@@ -980,7 +1014,8 @@ def gen_scenarios(rnd, count, length):
         out.append({'procs': ['p1', 'p2'] if rnd.random() < 0.7 else ['p1', 'p2', 'p3'],
                     'kids': ['k1', 'k2', 'k3'], 'containers': cs, 'blocks': ['m1', 'm2'] if rnd.random() < 0.6 else ['m1'],
                     'ckind': {c: rnd.choice(['dict', 'list']) for c in cs}, 'exit': rnd.choice(['hold', 'hold', 'drop']),
-                    'len': length, 'maxid': 120, 'burst': rnd.choice([0.0, 0.3, 0.6]), 'selfstore': rnd.random() < 0.3})
+                    'len': length, 'maxid': 120, 'burst': rnd.choice([0.0, 0.3, 0.6]), 'selfstore': rnd.random() < 0.3,
+                    'idle_drop': rnd.random() < 0.6})
     return out
 
 
